@@ -344,9 +344,52 @@ def match_known(known, res, sc):
 
 # ------------------------------------------------------------------------------------------------
 
+def selftest_determinism(prop, n=300):
+    """same seeds, different process partitionings and positions: every digest and verdict must agree"""
+    cfg = props.get(prop)
+    build()
+    ensure_template()
+    seed = int(os.environ.get("VERIF_SEED", "1") or "1")
+    runs = []
+    traces = {}
+    for nw in (1, 5, 16, 16):
+        logdir = os.path.join(BUILD, "logs", "selftest-%s-%d-%d" % (prop, nw, len(runs)))
+        shutil.rmtree(logdir, ignore_errors=True)
+        os.makedirs(logdir)
+        xe = dict(cfg.get("env") or {})
+        xe["VERIF_TRACE"] = "1"
+        ws = [Worker(w, prop, "quick", seed, w, n, nw, BIN, logdir, extra_env=xe) for w in range(nw)]
+        while any(w.proc.poll() is None for w in ws):
+            for w in ws:
+                w.poll()
+            time.sleep(0.05)
+        res = {}
+        for w in ws:
+            w.poll()
+            for r in w.results:
+                res[r["idx"]] = (r.get("digest"), r.get("verdict"), r.get("kind"), r.get("site"))
+                traces.setdefault(r["idx"], {})[r.get("digest")] = r.get("sample")
+        runs.append(res)
+    bad = 0
+    for idx in sorted(runs[0]):
+        vals = set(r.get(idx) for r in runs)
+        if len(vals) != 1:
+            bad += 1
+            print("NONDETERMINISTIC idx=%d %s" % (idx, vals))
+            tl = [t for t in traces.get(idx, {}).values() if t]
+            if len(tl) >= 2 and bad <= 3:
+                for x, y in zip(tl[0], tl[1]):
+                    if x != y:
+                        print("   A: " + str(x)[:700])
+                        print("   B: " + str(y)[:700])
+    print("determinism self-test %s: %d seeds x %d process layouts, %d divergent" % (prop, len(runs[0]), len(runs), bad))
+    sys.exit(1 if bad else 0)
+
 def main():
     if len(sys.argv) >= 3 and sys.argv[1] == "replay":
         return replay_cmd(sys.argv[2])
+    if len(sys.argv) >= 4 and sys.argv[1] == "selftest" and sys.argv[2] == "determinism":
+        return selftest_determinism(sys.argv[3], int(sys.argv[4]) if len(sys.argv) > 4 else 300)
     prop, tier = sys.argv[1], (sys.argv[2] if len(sys.argv) > 2 else os.environ.get("VERIF_TIER", "quick"))
     cfg = props.get(prop)
     if cfg is None:
